@@ -81,7 +81,7 @@ type cas struct {
 // the shared processed set
 func sharedSet() (*yang.Modules, error) {
 	ms := yang.NewModules()
-	for _, id := range []string{"i1", "t2", "a3"} {
+	for _, id := range []string{"i1", "t2", "a3", "m4", "s4", "m6", "s6a", "s6b"} {
 		if err := ms.Parse(session.Texts[id], id+".yang"); err != nil {
 			return nil, err
 		}
